@@ -52,6 +52,30 @@ func clInsertPublish(c *Ctx) {
 			c.Check(fi.guardedByValue(ret, level0, true) && strip(fi.RetVal(ret, 0)) == x, fn, ret, "success is reported only after the publishing CAS succeeded", "Insert reports success for a node that is not linked")
 		}
 	}
+	// a failed index CAS re-runs the path search before the next attempt at that level
+	for _, u := range upper {
+		uc := u.(*ssa.Call)
+		a := uc.Call.Args
+		if strip(a[3]) != x || strip(a[0]) == x {
+			continue
+		}
+		for _, r := range referrersOf(uc) {
+			ifi, ok := r.(*ssa.If)
+			if !ok {
+				continue
+			}
+			nf := normFact(ifi.Cond, true)
+			if nf.V != ssa.Value(uc) {
+				continue
+			}
+			fail := ifi.Block().Succs[1]
+			if !nf.Val {
+				fail = ifi.Block().Succs[0]
+			}
+			stale := fi.PathFromEdgePruned(ifi.Block(), fail, func(in ssa.Instruction) bool { return in == u }, func(in ssa.Instruction) bool { return p.IsCall(in, findPath) })
+			c.Check(stale == nil, fn, u, "a failed index-level CAS re-runs the path search before the next attempt", "the retry uses the same stale predecessor: the CAS fails for ever (the insert spins) once the predecessor's link has changed")
+		}
+	}
 	// a failed publish re-searches AND re-checks for an equal item before trying again
 	var failSucc, casBlock *ssa.BasicBlock
 	for _, r := range referrersOf(level0) {
